@@ -22,12 +22,13 @@ sys.path.insert(0, HERE)
 import inject as inj
 
 DEFAULT_CHECKS = ['--bounds-check', '--pointer-check', '--signed-overflow-check',
-                  '--undefined-shift-check', '--div-by-zero-check',
-                  '--pointer-primitive-check']
+                  '--undefined-shift-check', '--div-by-zero-check']
 SRC_DIRS = ['skeletons', 'libasn1fix', 'libasn1parser', 'libasn1common', 'libasn1compiler',
             'libasn1print', 'asn1-tools/unber', 'asn1-tools/enber']
 GUARD = 'VLM_ASN1C_VERIF'
 CANARY = 'vf_canary_reachable'
+BACKEND_FLAGS = {'sat': [], 'cadical': ['--sat-solver', 'cadical'], 'cvc5': ['--cvc5'], 'z3': ['--z3'],
+                 'kissat': ['--external-sat-solver', 'kissat']}
 
 
 def log(*a):
@@ -194,18 +195,15 @@ def c_literal(val):
     return None
 
 
-def write_replay_header(inputs, path):
-    lines = ['/* generated from a CBMC counterexample */']
+def write_replay_inputs(inputs, path):
+    lines = []
     for name, val in inputs.items():
         if isinstance(val, dict) and 'b' in val and isinstance(val['b'], list):
-            # VF_BYTES wrapper struct; variable is <name>_s
             nm = name[:-2] if name.endswith('_s') else name
             bs = [int(e['bits'], 2) if e and 'bits' in e else 0 for e in val['b']]
-            lines.append('static const unsigned char VF_VAL_%s[] = {%s};' % (nm, ','.join('0x%02x' % b for b in bs)))
-        else:
-            lit = c_literal(val)
-            if lit is not None:
-                lines.append('#define VF_VAL_%s %s' % (name, lit))
+            lines.append('%s bytes %s' % (nm, ''.join('%02x' % b for b in bs)))
+        elif isinstance(val, dict) and 'bits' in val:
+            lines.append('%s %x' % (name, int(val['bits'], 2)))
     open(path, 'w').write('\n'.join(lines) + '\n')
 
 
@@ -218,6 +216,35 @@ def pretty_inputs(inputs):
         elif isinstance(val, dict) and 'bits' in val:
             out[name] = val.get('data') if val.get('data') is not None else hex(int(val['bits'], 2))
     return out
+
+
+_native_lock = __import__('threading').Lock()
+
+
+def native_lib(root):
+    """Static archive of /repo's skeleton library (current working tree), built once per run with
+    ASan+UBSan; the linker pulls only members the replay harness does not define itself."""
+    with _native_lock:
+        d = os.path.join(root, 'nativelib')
+        lib = os.path.join(d, 'libsk.a')
+        if os.path.exists(lib):
+            return lib
+        if os.path.exists(d):
+            return None
+        os.makedirs(d)
+        srcs = [f for f in sorted(os.listdir(os.path.join(REPO, 'skeletons')))
+                if f.endswith('.c') and f != 'converter-example.c']
+        mk = ['all: libsk.a', 'CFLAGS=-std=gnu99 -O0 -g -w -fsanitize=address,undefined -fno-sanitize-recover=undefined -I%s -I%s'
+              % (os.path.join(REPO, 'skeletons'), REPO)]
+        objs = []
+        for f in srcs:
+            o = f[:-2] + '.o'
+            objs.append(o)
+            mk.append('%s: %s\n\tgcc $(CFLAGS) -c $< -o $@' % (o, os.path.join(REPO, 'skeletons', f)))
+        mk.append('libsk.a: %s\n\tar rcs $@ $^' % ' '.join(objs))
+        open(os.path.join(d, 'Makefile'), 'w').write('\n'.join(mk) + '\n')
+        rc, out, err, dt = run_cmd(['make', '-j16', '-C', d], 600, 64)
+        return lib if rc == 0 and os.path.exists(lib) else None
 
 
 class Obl:
@@ -234,9 +261,29 @@ class Obl:
         self.res = {'id': self.id, 'obligation': spec['id'], 'kind': spec.get('kind', 'enforce'),
                     'functions': spec.get('functions', spec.get('enforce', [])),
                     'status': 'UNDECIDED', 'why': '', 'cbmc_properties': 0, 'discharged': 0,
-                    'failed': [], 'solver_s': 0.0, 'backend': spec.get('backend', 'sat(minisat)'),
+                    'failed': [], 'solver_s': 0.0, 'backend': '',
                     'bound': spec.get('bound'), 'replaced': spec.get('replace', []),
                     'cmd': ''}
+
+    def static_excludes(self, a):
+        rc, out, err, dt = run_cmd(['goto-instrument', '--show-symbol-table', '--json-ui', a], 300)
+        ex = []
+        try:
+            data = json.loads(out)
+        except Exception:
+            return ex
+        havoc = set(self.s.get('havoc_statics', []))
+        for el in data:
+            for name, sym in (el.get('symbolTable') or {}).items():
+                if not sym.get('isStaticLifetime') or sym.get('isType'):
+                    continue
+                if name.startswith('__CPROVER') or name in havoc:
+                    continue
+                tid = (sym.get('type') or {}).get('id')
+                f = (sym.get('location') or {}).get('file', '')
+                if tid == 'code' or f.startswith(self.stage.src) or f.startswith(VERIF):
+                    ex += ['--nondet-static-exclude', name]
+        return ex
 
     def undecided(self, why):
         self.res['status'] = 'UNDECIDED'
@@ -290,6 +337,11 @@ class Obl:
                 if s.get('no_unwind_transform'):
                     gi += ['--loop-contracts-no-unwind']
             gi += s.get('gi_extra', [])
+            # cbmc 6.11 dfcc nondet-initialises every static-lifetime symbol, including function
+            # symbols that it then drops as unused (crash "to_code"/"parameter identifier") and the
+            # operation tables of the library.  Exclude: all function symbols; all statics defined in
+            # /repo sources (they keep their initialisers; C19's scan shows nobody writes them).
+            gi += self.static_excludes(a)
             gi += [a, b]
             rc, out, err, dt = run_cmd(gi, 600)
             open(os.path.join(self.dir, 'gi.log'), 'w').write(out + err)
@@ -302,20 +354,37 @@ class Obl:
         cb = ['cbmc', '--json-ui'] + s.get('checks', DEFAULT_CHECKS) + s.get('cbmc', [])
         if s.get('unwind'):
             cb += ['--unwind', str(s['unwind']), '--unwinding-assertions']
+        if not use_dfcc:
+            cb += ['--drop-unused-functions']
         if not s.get('no_object_bits'):
             cb += ['--object-bits', str(s.get('object_bits', 12))]
         cb.append(b)
         self.res['cmd'] = ' '.join(gi[:-2] + ['&&'] if use_dfcc else []) + ' ' + ' '.join(cb[:-1])
         timeout = int(os.environ.get('VF_TIMEOUT', 0)) or s.get('timeout', 300) * (3 if self.tier == 'thorough' else 1)
-        rc, out, err, dt = run_cmd(cb, timeout, s.get('mem_gb', 12))
-        self.res['solver_s'] = round(dt, 2)
-        open(os.path.join(self.dir, 'cbmc.json'), 'w').write(out)
-        if rc == -999:
-            return self.undecided('cbmc timeout after %ds' % timeout)
-        results, msgs, status = parse_cbmc_json(out)
-        if results is None or status is None:
-            tail = (err.strip().splitlines() or out.strip().splitlines() or ['?'])[-1][:300]
-            return self.undecided('cbmc did not finish (rc=%d): %s' % (rc, tail))
+        # back ends are tried in order; a back end that errors out or times out hands over to the next
+        backends = s.get('backends', ['sat'])
+        cb_base = cb
+        results = None
+        for bi, be in enumerate(backends):
+            cb = cb_base[:-1] + BACKEND_FLAGS[be] + [b]
+            rc, out, err, dt = run_cmd(cb, timeout, s.get('mem_gb', 12))
+            self.res['solver_s'] = round(self.res['solver_s'] + dt, 2)
+            self.res['backend'] = be
+            open(os.path.join(self.dir, 'cbmc.%s.json' % be), 'w').write(out)
+            open(os.path.join(self.dir, 'cbmc.json'), 'w').write(out)
+            if rc == -999:
+                why = 'cbmc timeout after %ds (%s)' % (timeout, be)
+                results = None
+                continue
+            results, msgs, status = parse_cbmc_json(out)
+            if results is None or status is None or any(r.get('status') == 'ERROR' for r in results):
+                tail = (err.strip().splitlines() or out.strip().splitlines() or ['?'])[-1][:300]
+                why = 'cbmc did not finish (rc=%d, %s): %s' % (rc, be, tail)
+                results = None
+                continue
+            break
+        if results is None:
+            return self.undecided(why)
         alltext = '\n'.join(msgs) + gilog
         # --- vacuity / soundness guards --------------------------------------
         for m in msgs:
@@ -325,7 +394,7 @@ class Obl:
         nobody = {f for f in nobody if not f.startswith('nondet_vf_') and f not in s.get('allow_no_body', [])}
         if nobody:
             return self.undecided('unintended havoc: no body for ' + ','.join(sorted(nobody)))
-        canary = [r for r in results if CANARY in r.get('description', '')]
+        canary = [r for r in results if CANARY in r.get('description', '') and r.get('property', '').startswith(s['entry'] + '.')]
         others = [r for r in results if CANARY not in r.get('description', '')]
         self.res['cbmc_properties'] = len(others)
         self.res['discharged'] = sum(1 for r in others if r['status'] == 'SUCCESS')
@@ -423,24 +492,27 @@ class Obl:
         if not s.get('native', True) or not inputs:
             return None, 'no usable input in the trace' if not inputs else 'harness has no native mode'
         os.makedirs(workdir, exist_ok=True)
-        hdr = os.path.join(workdir, 'vf_replay_inputs.h')
-        write_replay_header(inputs, hdr)
+        hdr = os.path.join(workdir, 'vf_replay_inputs.txt')
+        write_replay_inputs(inputs, hdr)
         exe = os.path.join(workdir, 'replay')
         cmd = ['gcc', '-std=gnu99', '-O0', '-g', '-w', '-DVF_NATIVE', '-D' + GUARD, '-fsanitize=address,undefined',
                '-fno-sanitize-recover=undefined', '-I', os.path.join(VERIF, 'include'), '-I', VERIF]
         for d in s.get('incdirs', ['skeletons']):
             cmd += ['-I', os.path.join(REPO, d)]
-        cmd += ['-I', REPO, '-include', hdr]
+        cmd += ['-I', REPO, '-DVF_ENTRY=' + s['entry']]
         for d in self.defines + s.get('defines', []):
             cmd.append('-D' + d)
         cmd.append(os.path.join(VERIF, s['harness']))
         for u in s.get('native_units', []):
             cmd.append(os.path.join(REPO, u))
+        lib = native_lib(self.stage.root)
+        if lib:
+            cmd.append(lib)
         cmd += ['-o', exe, '-lm']
         rc, out, err, dt = run_cmd(cmd, 300, 64)
         if rc != 0:
             return None, 'native harness does not build: ' + (err.strip().splitlines() or ['?'])[-1][:300]
-        env = dict(os.environ, ASAN_OPTIONS='detect_leaks=1:abort_on_error=0', UBSAN_OPTIONS='print_stacktrace=1')
+        env = dict(os.environ, VF_REPLAY_INPUTS=hdr, ASAN_OPTIONS='detect_leaks=1:abort_on_error=0', UBSAN_OPTIONS='print_stacktrace=1')
         try:
             p = subprocess.run([exe], stdout=subprocess.PIPE, stderr=subprocess.STDOUT, timeout=60, env=env)
             text = p.stdout.decode('utf-8', 'replace')
@@ -468,13 +540,15 @@ def select(reg, prop, tier, only=None):
             continue
         if o.get('tier', 'quick') == 'thorough' and tier != 'thorough':
             continue
+        if o.get('tier') == 'experimental':
+            continue
         sel.append(o)
     return sel
 
 
 def expand_findings(spec, findings):
     """Return list of (defines, tag, finding) runs for a registry entry."""
-    mine = [f for f in findings if f.get('obligation') == spec['id'] and f.get('status') == 'open']
+    mine = [f for f in findings if spec['id'] in f.get('obligations', []) and f.get('status') == 'open']
     if not mine:
         return [([], '', None)]
     runs = [(['%s=1' % f['macro'] for f in mine], 'excl', None)]
